@@ -15,9 +15,11 @@ import (
 var focus = []string{"node/class_generic.go", "node/new.go", "node/binary_assign.go", "data/type_generic.go", "node/class.go", "std/spawn.go"}
 
 var types = []string{"int", "string", "array", "U"}
-var values = []string{"int", "string", "array", "U", "V"}
+var values = []string{"int", "string", "array", "U", "V", "float", "bool", "null", "numstr", "SubU", "zero", "emptystr"}
 
-var valueExpr = map[string]string{"int": "7", "string": `"s"`, "array": "[1]", "U": "new U()", "V": "new V()"}
+// (float, bool, null, a numeric string, an object of a subclass, 0 and "": the values at the edges of "is of type A")
+var valueExpr = map[string]string{"int": "7", "string": `"s"`, "array": "[1]", "U": "new U()", "V": "new V()",
+	"float": "1.5", "bool": "true", "null": "null", "numstr": `"7"`, "SubU": "new SubU()", "zero": "0", "emptystr": `""`}
 
 // Op: instantiate a generic class (I) or write a typed member of a live instance (W).
 type Op struct {
